@@ -59,7 +59,11 @@ Seeds == <<
    ty |-> App("W2", <<TString>>)],
   \* intersection members that declare the same key with the same type but different optionality
   [env |-> <<>>, ty |-> Inter(<<O(<<Prop("id", TString, FALSE), Prop("note", TString, FALSE)>>),
-                                O(<<Prop("note", TString, TRUE), Prop("tag", TNumber, FALSE)>>)>>)]
+                                O(<<Prop("note", TString, TRUE), Prop("tag", TNumber, FALSE)>>)>>)],
+  \* a non-recursive alias that is met before a recursive one (inlining it must not renumber the recursion)
+  [env |-> <<[n |-> "Al", kind |-> "type", ty |-> O(<<Prop("x", TString, FALSE)>>)],
+             [n |-> "Rn", kind |-> "type", ty |-> O(<<Prop("next", Uni(<<Ref("Rn"), TNull>>), FALSE)>>)]>>,
+   ty |-> O(<<Prop("a", Ref("Al"), FALSE), Prop("r", Ref("Rn"), FALSE)>>)]
 >>
 
 VARIABLES seed, env, ty, steps, rule, rules
